@@ -11,6 +11,12 @@ CHECKS = {
  "C14": dict(level="model_checking", design="4/C14",
    text="Same machinery as C13; the Drain operator of Allocator.tla is the grant rule of C14 and NoGrantableWaiting/FifoPerPeer are checked by TLC in every state; any real step whose grants/failures differ from the model while accounting stays intact is a C14 violation.",
    note=TB, technique="TLC exhaustive + state-graph replay + trace validation"),
+ "C18": dict(level="model_checking", design="4/C18",
+   text="Publisher.tla (concurrent callers enqueueing under the RW lock, one FIFO processor) checked exhaustively by TLC: per (subscriber, topic) delivery equals the reference computed from the processed command history, in order, one close per ended subscription, liveness of processing. The sequential call graph is replayed on the real publisher (B1): every edge with a fence barrier, random walks, and burst walks without barriers comparing per (subscriber, topic) callback histories.",
+   note=TB + "; fence-subscriber barrier relies on FIFO command processing; concurrent callers are covered by the model, the real code is driven from one goroutine", technique="TLC exhaustive + state-graph replay with random/burst walks"),
+ "C19": dict(level="model_checking", design="4/C19",
+   text="LinkTracker.tla checked exhaustively by TLC (refcount exactness, at most one live send per scope and block, no state when idle, no orphan scope); complete abstract graphs for 2-3 requests x 1-2 links x 1-2 dedup keys replayed through the exported ResponseAssembler stream API (B1) plus seeded random walks through the same TLC graphs: send decision (BlockSizeOnWire and real message content), block index, finish status, memory requested, tracker emptiness (verif accessor).",
+   note=TB + "; call order of prepareQuery (dedup key, ignore list, skip count before traversal) assumed", technique="TLC exhaustive + state-graph replay with random walks"),
 }
 NA_REASON = "not built yet in this round (check under construction; see DESIGN.md section 4 for the plan)"
 def main():
